@@ -21,6 +21,9 @@ func Day(name string, loYear, hiYear int) time.Time               { return time.
 func Choice(name string, n int) int                               { return 0 }
 func Perm(name string, n int) []int                               { return nil }
 func MapOrder(on bool)                                            {}
+// MapOrderMax: only maps with at most n entries are iterated in every order (default 4).
+func MapOrderMax(n int) {}
+
 func Concrete(x int) int                                          { return x }
 func Assume(c bool)                                               {}
 func Assert(c bool, label string)                                 {}
